@@ -32,7 +32,7 @@ import (
 	"github.com/dolthub/dolt/go/zzverif/vh"
 )
 
-const c21RuleLive = "K=2-4 datas.Database clients over one database (one shared memory view / one view per client / one shared journaling NBS store), schedules of 5-30 calls on 1-2 branches with working sets: mostly CommitWithWorkingSet (fresh or stale head / working-set snapshots, clean or dirty new working set; plain, merge, force and amend forms incl. the amend that leaves the commit unchanged; a third of the commits take pinned metadata from a pool of two, so different clients rebuild the byte-identical commit with different working sets), against UpdateWorkingSet, SetHead (with and without working-set path), Commit, FastForward, Delete by other clients, 1-2 of them injected right before a store-root swap of about 40% of the calls. Oracle: dataset-map model; after every call and at every injection point the map read from one store root (Root + DatasetsByRootHash, or Datasets) equals the model, so the (head, working set) pair of a branch is always a pair of the model's history, an accepted combined update changed both components and a rejected one (ErrOptimisticLockFailed for a stale working set, checked first; ErrMergeNeeded for a moved head) changed neither. Non-trivial: the history has >= 1 combined update rejected for a stale working set, >= 1 rejected for a moved head and >= 1 accepted; distinct by the hash of (mode, K, op sequence)."
+const c21RuleLive = "K=2-4 datas.Database clients over one database (one shared memory view / one view per client / one shared journaling NBS store), schedules of 5-30 calls on 1-2 branches with working sets: mostly CommitWithWorkingSet (fresh or stale head / working-set dataset handles; prevHash taken from the handle, empty, or re-read right before the call while the stale handles are kept; the new working set is the value the caller's handle shows 30% of the time so that working-set values recur; clean or dirty new working set; plain, merge, force and amend forms incl. the amend that leaves the commit unchanged; a third of the commits take pinned metadata from a pool of two, so different clients rebuild the byte-identical commit with different working sets), against UpdateWorkingSet, SetHead (with and without working-set path), Commit, FastForward, Delete by other clients, 1-2 of them injected right before a store-root swap of about 40% of the calls. Oracle: dataset-map model; after every call and at every injection point the map read from one store root (Root + DatasetsByRootHash, or Datasets) equals the model, so the (head, working set) pair of a branch is always a pair of the model's history, an accepted combined update changed both components and a rejected one (ErrOptimisticLockFailed for a stale working set, checked first; ErrMergeNeeded for a moved head) changed neither. Non-trivial: the history has >= 1 combined update rejected for a stale working set, >= 1 rejected for a moved head and >= 1 accepted; distinct by the hash of (mode, K, op sequence)."
 
 const c21RuleCrash = "histories as in the live part on a journaling NBS store (nbs.NewLocalJournalingStore, 6-16 calls after a fixed setup); after the history the store directory is copied (manifest, journal, index as they are while the store is open) and the journal copy is truncated at the end of every root-hash record after the setup and, in non-trivial histories, for every accepted combined update at every record boundary of its flush (commit, closure, working-set, map and store-root chunk records, then the root record), one byte before and after the end of its root record and inside one of its chunk records; each image is opened with a new journaling store and its dataset map must equal the model's map after the op that wrote the last complete root-hash record of the image (which is never older than the last op acknowledged before the cut). Non-trivial: as in the live part (which implies images that end between the commit / working-set chunks and the root record of a combined update); distinct by the hash of (K, op sequence)."
 
